@@ -234,10 +234,16 @@ def analyse(buf: bytes, require_handshake=True):
        'udp': {flowkey: [(ts, src(ip,port), dst, payload)]}
     Raises PcapngError / FrameError on malformation."""
     recs = read_pcapng(buf)
-    packets = []
     for ts, raw, ln in recs:
         if ln != len(raw):
             raise PcapngError("captured length differs from original length")
+    return analyse_packets([(ts, raw) for ts, raw, ln in recs], require_handshake)
+
+
+def analyse_packets(recs, require_handshake=True):
+    """the same analysis on a list of (timestamp, frame bytes)"""
+    packets = []
+    for ts, raw in recs:
         fr = net.parse_frame(raw, strict=True)
         packets.append((ts, fr))
     tcp = {}
